@@ -201,13 +201,30 @@ theorem evalHead_wf (cfg : Cfg) (hash : Tuple → Nat) (fuel : Nat) (p : Program
         · exact hr
   · split at hev
     · cases hev
-      refine ⟨unionAll_nodup _, ?_⟩
-      intro t ht
-      obtain ⟨l, hl, htl⟩ := (mem_unionAll t _).1 ht
-      obtain ⟨w, _, rfl⟩ := List.mem_map.1 hl
-      cases hw : evalRulesM true (partLk hash cfg.workers w lk) (clausesOf p h) with
-      | none => rw [hw] at htl; simp at htl
-      | some tw => rw [hw] at htl; exact evalRulesM_fits true _ _ tw hw t htl
+      have hpf : AllFit (clausesOf p h) (unionAll ((List.range cfg.workers).map
+          (fun w => (evalRulesM true (partLk hash cfg.workers w lk) (clausesOf p h)).getD []))) := by
+        intro t ht
+        obtain ⟨l, hl, htl⟩ := (mem_unionAll t _).1 ht
+        obtain ⟨w, _, rfl⟩ := List.mem_map.1 hl
+        cases hw : evalRulesM true (partLk hash cfg.workers w lk) (clausesOf p h) with
+        | none => rw [hw] at htl; simp at htl
+        | some tw => rw [hw] at htl; exact evalRulesM_fits true _ _ tw hw t htl
+      have hwn : ((evalRulesM true lk (clausesOf p h)).getD []).Nodup ∧ AllFit (clausesOf p h) ((evalRulesM true lk (clausesOf p h)).getD []) := by
+        cases hw : evalRulesM true lk (clausesOf p h) with
+        | none => exact ⟨List.nodup_nil, fun t ht => by cases ht⟩
+        | some tw => exact ⟨evalRulesWith_nodup _ _ _ hw, evalRulesM_fits true lk _ tw hw⟩
+      refine ⟨?_, ?_⟩
+      · refine List.nodup_append.2 ⟨hwn.1.filter _, (unionAll_nodup _).filter _, ?_⟩
+        intro x hx y hy hxy
+        subst hxy
+        have h1 := (List.mem_filter.1 hx).1
+        have h2 := (List.mem_filter.1 hy).2
+        simp only [Bool.not_eq_true', ← Bool.not_eq_true] at h2
+        exact h2 (List.contains_iff_mem.2 h1)
+      · intro t ht
+        rcases List.mem_append.1 ht with ht | ht
+        · exact hwn.2 t (List.mem_filter.1 ht).1
+        · exact hpf t (List.mem_filter.1 ht).1
     · exact ⟨evalRulesWith_nodup _ _ _ hev, evalRulesM_fits true lk _ ts hev⟩
 
 /-! ### the whole run (no row limit) -/
@@ -233,7 +250,7 @@ theorem execLoop_wf (cfg : Cfg) (hlim : cfg.limit = 0) (hash : Tuple → Nat) (o
     | some ts =>
       rw [hev] at hr
       have hnl : limited cfg p h = false := by simp [limited, hlim]
-      simp only [hnl, Bool.false_eq_true, if_false] at hr
+      simp only [hnl, Bool.and_false, Bool.false_eq_true, if_false] at hr
       have hself : AllFit (clausesOf p h) (lkOf edb acc h) := by
         unfold lkOf
         cases hl : acc.lookup h with
